@@ -160,14 +160,18 @@ pub fn apply(pt: &mut Pt, out: &mut Outcome, op: &POp) {
         POp::Mknod { p, name, kind, mode, umask, caller: cl } => {
             let p = nsel(pt, *p);
             let (u, g) = caller(*cl);
-            let (t, rdev) = match kind % 4 {
-                0 => (libc::S_IFREG, 0),
+            let (t, rdev) = match kind % 8 {
+                0 | 4 => (libc::S_IFREG, 0),
                 1 => (libc::S_IFIFO, 0),
                 2 => (libc::S_IFSOCK, 0),
-                _ => (libc::S_IFCHR, libc::makedev(1, 3) as u32),
+                3 => (libc::S_IFCHR, libc::makedev(1, 3) as u32),
+                // device numbers beyond 8-bit minors / with large majors (all fit the 32-bit wire field)
+                5 => (libc::S_IFCHR, libc::makedev(13, 300) as u32),
+                6 => (libc::S_IFBLK, libc::makedev(259, 70000) as u32),
+                _ => (libc::S_IFBLK, libc::makedev(4095, 255) as u32),
             };
             // device nodes can only be made by root on the host as well
-            let (u, g) = if t == libc::S_IFCHR { (0, 0) } else { (u, g) };
+            let (u, g) = if t == libc::S_IFCHR || t == libc::S_IFBLK { (0, 0) } else { (u, g) };
             pt.mknod(out, p, nm(*name), t | (*mode & 0o777), rdev, *umask & 0o777, u, g);
         }
         POp::Symlink { p, name, target, caller: cl } => {
@@ -415,7 +419,7 @@ pub fn op_strategy() -> BoxedStrategy<POp> {
         5 => (any::<u16>(), name_idx(), open_flags(), 0u32..0o10000, prop_oneof![Just(0u32), Just(0o22), Just(0o77), Just(0o777)], 0u8..3)
             .prop_map(|(p, name, flags, mode, umask, caller)| POp::Create { p, name, flags: flags | if mode & 1 == 1 { libc::O_EXCL as u32 } else { 0 }, mode, umask, caller }),
         3 => (any::<u16>(), name_idx(), 0u32..0o10000, Just(0u32), 0u8..3).prop_map(|(p, name, mode, umask, caller)| POp::Mkdir { p, name, mode, umask, caller }),
-        2 => (any::<u16>(), name_idx(), 0u8..4, 0u32..0o1000, prop_oneof![Just(0u32), Just(0o22)], 0u8..3).prop_map(|(p, name, kind, mode, umask, caller)| POp::Mknod { p, name, kind, mode, umask, caller }),
+        3 => (any::<u16>(), name_idx(), 0u8..8, 0u32..0o1000, prop_oneof![Just(0u32), Just(0o22)], 0u8..3).prop_map(|(p, name, kind, mode, umask, caller)| POp::Mknod { p, name, kind, mode, umask, caller }),
         2 => (any::<u16>(), name_idx(), any::<u8>(), 0u8..3).prop_map(|(p, name, target, caller)| POp::Symlink { p, name, target, caller }),
         2 => (any::<u16>(), any::<u16>(), name_idx()).prop_map(|(n, p, name)| POp::Link { n, p, name }),
         3 => (any::<u16>(), name_idx()).prop_map(|(p, name)| POp::Unlink { p, name }),
